@@ -126,6 +126,156 @@ theorem C01_balance_partial (s : Store) (hinv : Inv s) (now : Nat) (mat m sy : I
     congr 1
     omega
 
+/-! ### `UnspentOutputs` -/
+
+private theorem mapM_ok_mem {α β : Type} (f : α → M β) :
+    ∀ (l : List α) (r : List β), l.mapM f = .ok r → ∀ y ∈ r, ∃ x ∈ l, f x = .ok y := by
+  intro l
+  induction l with
+  | nil => intro r h y hy; simp [List.mapM_nil, pure, Except.pure] at h; subst h; cases hy
+  | cons a t ih =>
+    intro r h y hy
+    rw [List.mapM_cons] at h
+    cases hfa : f a with
+    | error e => rw [hfa] at h; cases h
+    | ok b =>
+      rw [hfa] at h
+      cases ht : t.mapM f with
+      | error e => rw [ht] at h; cases h
+      | ok bs =>
+        rw [ht] at h
+        simp only [bind, Except.bind, pure, Except.pure, Except.ok.injEq] at h
+        subst h
+        cases hy with
+        | head => exact ⟨a, List.mem_cons_self, hfa⟩
+        | tail _ hy' =>
+          obtain ⟨x, hx, hfx⟩ := ih bs ht y hy'
+          exact ⟨x, List.mem_cons_of_mem _ hx, hfx⟩
+
+private theorem mapM_ok_all {α β : Type} (f : α → M β) :
+    ∀ (l : List α) (r : List β), l.mapM f = .ok r → ∀ x ∈ l, ∃ y ∈ r, f x = .ok y := by
+  intro l
+  induction l with
+  | nil => intro r _ x hx; cases hx
+  | cons a t ih =>
+    intro r h x hx
+    rw [List.mapM_cons] at h
+    cases hfa : f a with
+    | error e => rw [hfa] at h; cases h
+    | ok b =>
+      rw [hfa] at h
+      cases ht : t.mapM f with
+      | error e => rw [ht] at h; cases h
+      | ok bs =>
+        rw [ht] at h
+        simp only [bind, Except.bind, pure, Except.pure, Except.ok.injEq] at h
+        subst h
+        cases hx with
+        | head => exact ⟨b, List.mem_cons_self, hfa⟩
+        | tail _ hx' =>
+          obtain ⟨y, hy, hfy⟩ := ih bs ht x hx'
+          exact ⟨y, List.mem_cons_of_mem _ hy, hfy⟩
+
+/-- what `UnspentOutputs` reports for one entry of the unspent index -/
+theorem fetchMined_spec (s : Store) (now : Nat) (op : OutPoint) (blk : Block) (o : Option Credit)
+    (h : fetchMinedCredit s now false false true (op, blk) = .ok o) :
+    (o = none ↔ (isLocked s op now = true ∨ spentByUnmined s op = true)) ∧
+    (∀ c, o = some c → ∃ rec br v, s.txrecs.find? ⟨op.hash, blk⟩ = some rec ∧ s.blocks.find? blk.height = some br ∧
+        rec.outs[op.index]? = some v ∧ c = ⟨op, some ⟨blk, br.time⟩, v, rec.isCoinBase⟩) := by
+  unfold fetchMinedCredit at h
+  by_cases hl : isLocked s op now = true
+  · simp only [hl, Bool.not_false, Bool.true_and, if_true, pure_eq, Except.ok.injEq] at h
+    subst h; simp [hl]
+  · have hl' : isLocked s op now = false := by simpa using hl
+    by_cases hs : spentByUnmined s op = true
+    · simp only [hl', hs, Bool.not_false, Bool.true_and, Bool.false_eq_true, if_false, if_true, pure_eq,
+        Except.ok.injEq] at h
+      subst h; simp [hs]
+    · have hs' : spentByUnmined s op = false := by simpa using hs
+      simp only [hl', hs', Bool.not_false, Bool.true_and, Bool.false_eq_true, if_false] at h
+      repeat' split at h
+      all_goals first | (cases h; done) | skip
+      all_goals simp only [pure_eq, Except.ok.injEq] at h
+      all_goals subst h
+      · rename_i _ rec hrec _ v hv _ _ br hbr
+        refine ⟨by simp [hl', hs'], ?_⟩
+        intro c hc; cases hc
+        exact ⟨rec, br, v, hrec, hbr, hv, rfl⟩
+      · rename_i hf; exact absurd trivial hf
+
+/-- **UnspentOutputs, soundness**: every reported mined output is an entry of the unspent index that is neither
+leased nor spent by an unconfirmed transaction, reported with the value of that output in its transaction record, its
+confirming block (with the block's time) and its coinbase flag; every reported unconfirmed output is an unconfirmed
+credit that is neither leased nor spent. -/
+theorem C01_utxos_sound (s : Store) (now : Nat) (l : List Credit) (h : unspentOutputs s now = .ok l)
+    (c : Credit) (hc : c ∈ l) :
+    isLocked s c.op now = false ∧ spentByUnmined s c.op = false ∧
+    ((∃ blk rec br v, (c.op, blk) ∈ s.unspent ∧ s.txrecs.find? ⟨c.op.hash, blk⟩ = some rec ∧
+        s.blocks.find? blk.height = some br ∧ rec.outs[c.op.index]? = some v ∧
+        c = ⟨c.op, some ⟨blk, br.time⟩, v, rec.isCoinBase⟩) ∨
+     (∃ uc, (c.op, uc) ∈ s.unminedCredits ∧ c.block = none)) := by
+  unfold unspentOutputs fetchCredits at h
+  cases ha : s.unspent.mapM (fetchMinedCredit s now false false true) with
+  | error e => rw [ha] at h; cases h
+  | ok a =>
+    cases hb : s.unminedCredits.mapM (fetchUnminedCredit s now false false true) with
+    | error e => rw [ha, hb] at h; cases h
+    | ok b =>
+      rw [ha, hb] at h
+      simp only [bind, Except.bind, pure, Except.pure, Except.ok.injEq] at h
+      subst h
+      rw [List.mem_append, List.mem_filterMap, List.mem_filterMap] at hc
+      rcases hc with ⟨o, ho, hoc⟩ | ⟨o, ho, hoc⟩
+      · simp only [id] at hoc; subst hoc
+        obtain ⟨⟨op, blk⟩, hmem, hf⟩ := mapM_ok_mem _ _ _ ha _ ho
+        obtain ⟨h1, h2⟩ := fetchMined_spec s now op blk _ hf
+        obtain ⟨rec, br, v, hrec, hbr, hv, hceq⟩ := h2 c rfl
+        have hop : c.op = op := by rw [hceq]
+        have hn : ¬ (isLocked s op now = true ∨ spentByUnmined s op = true) := by
+          intro hor; have := h1.mpr hor; cases this
+        rw [hop]
+        refine ⟨by simpa using fun h => hn (Or.inl h), by simpa using fun h => hn (Or.inr h), Or.inl ?_⟩
+        exact ⟨blk, rec, br, v, hmem, hrec, hbr, hv, by rw [hceq]⟩
+      · simp only [id] at hoc; subst hoc
+        obtain ⟨⟨op, uc⟩, hmem, hf⟩ := mapM_ok_mem _ _ _ hb _ ho
+        unfold fetchUnminedCredit at hf
+        by_cases hl : isLocked s op now = true
+        · simp [hl] at hf
+        · have hl' : isLocked s op now = false := by simpa using hl
+          by_cases hs : spentByUnmined s op = true
+          · simp [hl', hs] at hf
+          · have hs' : spentByUnmined s op = false := by simpa using hs
+            simp only [hl', hs', Bool.not_false, Bool.true_and, Bool.false_eq_true, if_false] at hf
+            repeat' split at hf
+            all_goals first | (cases hf; done) | skip
+            all_goals simp only [pure_eq, Except.ok.injEq, Option.some.injEq] at hf
+            all_goals subst hf
+            · exact ⟨hl', hs', Or.inr ⟨uc, hmem, rfl⟩⟩
+            · rename_i hf'; exact absurd trivial hf'
+
+/-- **UnspentOutputs, completeness** (mined part): every entry of the unspent index that is neither leased nor spent
+by an unconfirmed transaction is reported. -/
+theorem C01_utxos_complete (s : Store) (now : Nat) (l : List Credit) (h : unspentOutputs s now = .ok l)
+    (op : OutPoint) (blk : Block) (hm : (op, blk) ∈ s.unspent)
+    (hl : isLocked s op now = false) (hs : spentByUnmined s op = false) : ∃ c ∈ l, c.op = op ∧ c.block.map (·.block) = some blk := by
+  unfold unspentOutputs fetchCredits at h
+  cases ha : s.unspent.mapM (fetchMinedCredit s now false false true) with
+  | error e => rw [ha] at h; cases h
+  | ok a =>
+    cases hb : s.unminedCredits.mapM (fetchUnminedCredit s now false false true) with
+    | error e => rw [ha, hb] at h; cases h
+    | ok b =>
+      rw [ha, hb] at h
+      simp only [bind, Except.bind, pure, Except.pure, Except.ok.injEq] at h
+      subst h
+      obtain ⟨o, ho, hf⟩ := mapM_ok_all _ _ _ ha _ hm
+      obtain ⟨h1, h2⟩ := fetchMined_spec s now op blk o hf
+      cases o with
+      | none => have := h1.mp rfl; rcases this with h' | h' <;> simp_all
+      | some c =>
+        obtain ⟨rec, br, v, _, _, _, hceq⟩ := h2 c rfl
+        refine ⟨c, List.mem_append_left _ (List.mem_filterMap.mpr ⟨some c, ho, rfl⟩), ?_, ?_⟩ <;> rw [hceq] <;> rfl
+
 /-! ### the invariant is not vacuous and survives the lease operations -/
 
 /-- a store reached by model operations: a coinbase `(1)` and a payment `(2)` confirmed in blocks 1 and 2, a spender
